@@ -14,19 +14,22 @@ CPU = "msp430"
 M16 = 0xffff
 M32 = 0xffffffff
 
-LEAN_MODULES = ["NakenVerif.Msp430.AsmProps", "NakenVerif.Msp430.RoundTrip", "NakenVerif.Msp430.DisProps"]
+LEAN_MODULES = ["NakenVerif.Msp430.RoundTrip"]      # imports AsmSound/AsmRange (encoder) and DisLocal/DisRows/DisSound (decoder)
 P = "NakenVerif.Msp430."
 C01_THEOREMS = [P + n for n in (
-    "msp430_encode_sound", "msp430_encode_sound_defined", "msp430_optimize_only_rewrites_index0", "msp430_encode_len",
-    "msp430_walk_exact", "msp430_fixpoint_structured", "table_spec_rows", "table_alias_rows", "table_alias_zero_sound",
-    "table_core_types", "table_no_shadow", "msp430_pcinc_counterexample")]
+    "msp430_encode_sound", "msp430_optimize_only_rewrites_index0", "msp430_encode_len", "msp430_walk_exact",
+    "msp430_fixpoint_structured_partial", "arch_len", "arch_reading", "table_spec_rows", "table_cmd_codes",
+    "table_core_types", "table_no_shadow", "table_core_rows", "table_core_names", "table_dis_kinds",
+    "msp430_pcinc_counterexample")]
 C06_THEOREMS = [P + n for n in (
     "msp430_encode_rejects_unfit", "msp430_encode_injective_mod_field", "msp430_encode_injective_imm16",
-    "msp430_encode_exact_field", "msp430_jump_range", "table_spec_rows")]
+    "msp430_encode_exact_field", "msp430_jump_range", "table_alias_rows", "table_jump_rows", "table_spec_rows")]
 C07_THEOREMS = [P + n for n in (
-    "msp430_decode_encode_decode", "msp430_text_rejected_classes", "table_no_shadow", "table_core_types")]
+    "msp430_decode_encode_decode", "msp430_text_rejected_classes", "arch_reading", "table_no_shadow", "table_core_rows",
+    "table_core_names", "table_dis_kinds")]
 C08_THEOREMS = [P + n for n in (
-    "msp430_len_bounds", "msp430_len_even", "msp430_decode_local", "msp430_text_fits", "msp430_walk_tiles")]
+    "msp430_len_bounds", "msp430_decode_local", "msp430_text_fits", "msp430_walk_tiles", "msp430_walk_tiles_disasm",
+    "table_dis_types", "table_instr_short")]
 
 MODELLED = ("parse_instruction_msp430 for CPU type .msp430 (all VERSION_MSP430 rows: 12 two-operand, 6 single-operand, "
             "reti, 12 jump mnemonics; aliases[] expansion incl. the MSP430X alias rows that fail on this CPU; "
